@@ -11,7 +11,9 @@ reading or writing beyond it."
 The theorems are about `PV.SockAddr` (the transliteration of `psocketaddress.c`, over the facts in
 `PV.Generated.SA` that `tools/extract.py` regenerates from the working tree) and relate it to
 `PV.SockAddr.Spec` (explicit byte layout, byte-wise classification).  Buffers are byte lists of
-exactly the caller's extent; an access outside is the result `Res.fault`.
+exactly the caller's extent; an access outside is the result `Res.fault`.  `NULL` pointer arguments: the
+`…P` functions of the model (`Option` = pointer that may be NULL) and `null_arguments`, `nonnull_arguments`,
+`to_native_false_writes_nothing`.
 
 F7 (DESIGN §5): before the repair `p_socket_address_new_from_native` only rejected `len == 0` before
 reading the two-byte `sa_family` (`SA.fromNativeMinLen = 1`); with a one-byte buffer that read is
